@@ -273,6 +273,8 @@ func (pc *parentController) syncRevisionClaims(parentRevisions []*parentRevision
 				continue
 			}
 
+			// Keep only the claims that survived the checks above.
+			ck.Names = names
 			children = append(children, ck)
 		}
 
